@@ -49,7 +49,9 @@ def prepare(tier):
 # independent unit algebra: scale to CGS + dimension exponents
 
 BASE = {"": (1.0, {}), "cm": (1.0, {"L": 1}), "m": (100.0, {"L": 1}), "km": (1.0e5, {"L": 1}),
-        "g": (1.0, {"M": 1}), "kg": (1000.0, {"M": 1}), "s": (1.0, {"T": 1})}
+        "g": (1.0, {"M": 1}), "kg": (1000.0, {"M": 1}), "s": (1.0, {"T": 1}),
+        # dimensionless units that carry a scale: a plain number is 1, not 1 percent
+        "percent": (0.01, {}), "cm/m": (0.01, {})}
 
 
 class U:
@@ -109,7 +111,7 @@ def generate(rng, tier):
     ops = []
     for _ in range(rng.choice([2, 3, 4])):
         ops.append({"op": "new", "h": 0, "kind": rng.choice(["arr", "arr", "vec"]), "nc": rng.choice([1, 2, 3]),
-                    "unit": rng.choice(["m", "cm", "g", "s", ""]), "dtype": rng.choice(["f8", "f8", "f8", "f4", "i8", "i4"]),
+                    "unit": rng.choice(["m", "cm", "g", "s", "", "", "percent", "cm/m"]), "dtype": rng.choice(["f8", "f8", "f8", "f4", "i8", "i4"]),
                     "vals": [gen_vals(rng, n, "i8") for _ in range(3)]})
     nops = rng.choice([4, 6, 10, 16, 30])
     for _ in range(nops):
@@ -117,7 +119,7 @@ def generate(rng, tier):
         r = rng.random()
         if r < 0.08:
             ops.append({"op": "new", "h": h, "kind": rng.choice(["arr", "vec"]), "nc": rng.choice([1, 2, 3]),
-                        "unit": rng.choice(["m", "cm", "km", "g", "kg", "s", ""]), "dtype": rng.choice(["f8", "f8", "f4", "i8", "i4"]),
+                        "unit": rng.choice(["m", "cm", "km", "g", "kg", "s", "", "percent", "cm/m"]), "dtype": rng.choice(["f8", "f8", "f4", "i8", "i4"]),
                         "vals": [gen_vals(rng, n, "i8") for _ in range(3)]})
         elif r < 0.22:
             a = rng.choice([None, 0, 1, 1])
@@ -164,6 +166,9 @@ def generate(rng, tier):
                                                                                                        "num": 2.0, "pick": -2 if full else -1}})
         else:
             ops.append({"op": "inplace", "h": h, "i": rng.randrange(64), "sym": rng.choice("+-*/"), "rhs": gen_rhs(rng, n)})
+    for o in ops:
+        if o["op"] == "new" and o["unit"] in ("percent", "cm/m") and o["dtype"] in ("i8", "i4"):
+            o["dtype"] = "f8"  # integers in a unit whose conversion factor is not an integer are outside the quantifier
     case = {"n": n, "ops": ops}
     if rng.random() < 0.2:
         # a scalar (0-d) Array or Vector: copies by every route are independent in both directions
@@ -566,6 +571,8 @@ def execute(case, stats):
                         continue
                     if rk == "live" and yu.compatible(xu) and yu.key() != xu.key():
                         continue
+                    if rk == "num" and sym in "+-" and yu.compatible(xu) and yu.key() != xu.key():
+                        continue  # a number converted to a scaled dimensionless unit is a float: not representable exactly by construction
                 # ---- model expectation
                 compatible = yu.compatible(xu)
                 if sym in "+-" and not compatible:
@@ -738,7 +745,7 @@ def execute(case, stats):
             for o2 in live[i + 1:]:
                 a1, a2 = G.arr[o1], G.arr[o2]
                 want = a1["buf"] == a2["buf"] and bool(set(a1["idx"].tolist()) & set(a2["idx"].tolist()))
-                got = bool(np.shares_memory(a1["real"]._array, a2["real"]._array))
+                got = bool(np.shares_memory(np.asarray(a1["real"].values), np.asarray(a2["real"].values)))
                 if want != got:
                     V(step, op, "shares-memory", {"o1": o1, "o2": o2, "model_alias": want, "real_alias": got})
                     break
